@@ -195,6 +195,37 @@ EnumDef(op, outer, tc, c) ==
   LET r == Bin(op, "int", outer, tc, c) IN
   [ok |-> r.ok /\ InRange(r.v, "int") /\ InRange(ZAdd(r.v, Z1), "int"), v |-> r.v, next |-> ZAdd(r.v, Z1)]
 
+(* ---- floating operands of operators whose result is an integer (6.5.8p6, 6.5.9p3, 6.5.3.3p5,
+   6.5.13-15, 6.3.1.2, 6.3.1.4; IEC 60559: NaN is unordered).  Only the order structure matters, so a
+   floating constant is [nan, ord, big, tr]: NaN?, its rank among the constants used (-0 and +0 have
+   the same rank 0), magnitude beyond every integer type?, and its value truncated toward zero. *)
+(* the floating constants used by the model check and the generator (name: see harness/c07.py fconst) *)
+FV == << [n |-> "nan",  nan |-> TRUE,  ord |-> 0,    big |-> FALSE, tr |-> 0],
+         [n |-> "ninf", nan |-> FALSE, ord |-> -99,  big |-> TRUE,  tr |-> 0],
+         [n |-> "m1_5", nan |-> FALSE, ord |-> -3,   big |-> FALSE, tr |-> -1],
+         [n |-> "m0",   nan |-> FALSE, ord |-> 0,    big |-> FALSE, tr |-> 0],
+         [n |-> "p0",   nan |-> FALSE, ord |-> 0,    big |-> FALSE, tr |-> 0],
+         [n |-> "p0_5", nan |-> FALSE, ord |-> 1,    big |-> FALSE, tr |-> 0],
+         [n |-> "p2",   nan |-> FALSE, ord |-> 4,    big |-> FALSE, tr |-> 2],
+         [n |-> "big",  nan |-> FALSE, ord |-> 50,   big |-> TRUE,  tr |-> 0],
+         [n |-> "inf",  nan |-> FALSE, ord |-> 99,   big |-> TRUE,  tr |-> 0] >>
+FTruth(x) == x.nan \/ x.ord # 0                       \* compares unequal to 0 (NaN does)
+FCmp(op, x, y) ==
+  LET un == x.nan \/ y.nan IN
+  Res(TRUE, "int", ZBool(
+    CASE op = "lt" -> ~un /\ x.ord < y.ord  [] op = "gt" -> ~un /\ x.ord > y.ord
+      [] op = "le" -> ~un /\ x.ord <= y.ord [] op = "ge" -> ~un /\ x.ord >= y.ord
+      [] op = "eq" -> ~un /\ x.ord = y.ord  [] op = "ne" -> un \/ x.ord # y.ord
+      [] op = "land" -> FTruth(x) /\ FTruth(y)
+      [] op = "lor"  -> FTruth(x) \/ FTruth(y)
+      [] op = "lnot" -> ~FTruth(x)
+      [] OTHER       -> FALSE))
+FCond(x) == Res(TRUE, "int", IF FTruth(x) THEN ZI(1) ELSE ZI(2))          \* x ? 1 : 2
+(* (T)x: _Bool compares with 0; otherwise the truncated value must be representable (else undefined) *)
+FToInt(x, td) == IF td = "bool" THEN Res(TRUE, td, ZBool(FTruth(x)))
+                 ELSE IF x.nan \/ x.big THEN Bad
+                 ELSE Res(InRange(ZI(x.tr), td), td, ZI(x.tr))
+
 (* ---- contexts: the implicit conversion each context performs ---------- *)
 (* initializer / argument / return / simple assignment (6.5.16.1p2, 6.5.2.2p7, 6.8.6.4p3):
    the value is converted to the destination type; an assignment expression
